@@ -50,5 +50,22 @@ func TestGovcBoundedRotate(t *testing.T) {
 			}
 		}
 	}
+	// larger sizes, sampled offsets (a size-dependent code path is otherwise invisible to the small bound)
+	for _, n := range []int{16, 31, 64, 100, 255, 256, 257, 300, 512, 1000, 4099} {
+		for _, k := range []int{-n, -n + 1, -n / 2, -7, -1, 0, 1, 2, 5, n / 3, n / 2, n/2 + 1, n - 1, n} {
+			ss := make([]int, n)
+			for i := range ss {
+				ss[i] = i
+			}
+			Rotate(ss, k)
+			cases++
+			for i := 0; i < n; i++ {
+				j := ((i+k)%n + n) % n
+				if ss[j] != i {
+					t.Fatalf("Rotate(len %d, %d): element %d is not at index %d", n, k, i, j)
+				}
+			}
+		}
+	}
 	fmt.Printf("GOVC-CASES=%d\n", cases)
 }
